@@ -141,9 +141,7 @@ func isBool(n *xcbor.Node) (bool, bool) {
 }
 
 // refParse is the strict CDDL reading of a version-data item for a family.
-// why names the first reason it is not valid ("" when valid). lenient is set
-// when the only deviation is a peer-sharing value outside the version's range
-// (kept apart: implementations commonly tolerate it).
+// why names the first reason it is not valid ("" when valid).
 func refParse(f family, n *xcbor.Node) (d vdata, why string) {
 	if n == nil {
 		return d, "absent"
@@ -211,4 +209,82 @@ func peerSharingOn(f family, ps uint64) bool {
 		return ps != 0
 	}
 	return false
+}
+
+// refLenient reads version data the way a tolerant decoder would: on top of the
+// strict reading it takes null/undefined for a zero field (or for the whole
+// item), a tag-2 bignum that fits for an unsigned field, and any unsigned
+// peer-sharing value. ok=false means the item is not even leniently an instance
+// of the family. It exists only so that the oracle can tell "accepted because
+// the decoder is tolerant, content is what the initiator wants" (counted, not
+// flagged) from "accepted although the content is wrong".
+func refLenient(f family, n *xcbor.Node) (d vdata, ok bool) {
+	if n == nil {
+		return d, false
+	}
+	isNil := func(x *xcbor.Node) bool { return x.Kind == xcbor.Simple && x.Width == 0 && (x.Arg == 22 || x.Arg == 23) }
+	uintOf := func(x *xcbor.Node, max uint64) (uint64, bool) {
+		switch {
+		case x.Kind == xcbor.Uint:
+			return x.Arg, x.Arg <= max
+		case isNil(x):
+			return 0, true
+		case x.Kind == xcbor.Tag && x.Arg == 2 && len(x.Items) == 1 && x.Items[0].Kind == xcbor.Bytes:
+			b := x.Items[0].Payload()
+			var v uint64
+			for _, c := range b {
+				if v>>56 != 0 {
+					return 0, false
+				}
+				v = v<<8 | uint64(c)
+			}
+			return v, v <= max
+		}
+		return 0, false
+	}
+	boolOf := func(x *xcbor.Node) (bool, bool) {
+		if isNil(x) {
+			return false, true
+		}
+		return isBool(x)
+	}
+	if isNil(n) {
+		d.InitiatorOnly = f == famNtC9 || f == famNtC15
+		return d, true
+	}
+	if f == famNtC9 {
+		d.Magic, ok = uintOf(n, 0xffffffff)
+		d.InitiatorOnly = true
+		return d, ok
+	}
+	if n.Kind != xcbor.Array {
+		return d, false
+	}
+	want := map[family]int{famNtC15: 2, famNtN7: 2, famNtN11: 4, famNtN13: 4}[f]
+	if len(n.Items) != want {
+		return d, false
+	}
+	if d.Magic, ok = uintOf(n.Items[0], 0xffffffff); !ok {
+		return d, false
+	}
+	b, ok := boolOf(n.Items[1])
+	if !ok {
+		return d, false
+	}
+	switch f {
+	case famNtC15:
+		d.Query, d.InitiatorOnly = b, true
+		return d, true
+	case famNtN7:
+		d.InitiatorOnly = b
+		return d, true
+	}
+	d.InitiatorOnly = b
+	if d.PeerSharing, ok = uintOf(n.Items[2], ^uint64(0)); !ok {
+		return d, false
+	}
+	if d.Query, ok = boolOf(n.Items[3]); !ok {
+		return d, false
+	}
+	return d, true
 }
